@@ -42,6 +42,29 @@ def sequential_defs(stmts, upto=None):
 
 
 def run(ctx):
+    """the driver is decided by interpreting it on the enumerated configurations (monodrv); the symbolic rules over its source - which hold for every chunk
+    size but read one layout of the loops only - corroborate an OK verdict, and stand in (as suspects) when the interpretation has none"""
+    from .. import monodrv
+    from ..roundtrip import SuspectCtx, CorroborateCtx
+    repo = ctx.repo
+    fi = ctx.fn(repo.func('convolve.monochromatic', 'convolve_model_dir_monochromatic'))
+    verdict = monodrv.decide(ctx, repo, fi, loc(fi))
+    ctx.extra['driver_configurations'] = len(list(monodrv.scenarios()))
+    if verdict == 'ok':
+        sub = CorroborateCtx(ctx, 'decided by interpretation on the enumerated configurations')
+    elif verdict == 'undecided':
+        sub = SuspectCtx(ctx, 'the driver was not decided by interpretation and the symbolic rule, which reads one layout only, reports')
+    else:
+        sub = None          # the interpretation found a violation: reported above
+    if sub is not None:
+        try:
+            driver_symbolic(sub)
+        except AnalysisError as e:
+            sub.undecided('CFG-9', 'symbolic rules over the driver', loc(fi), 'layout not recognised: %s' % e)
+    cube_rules(ctx)
+
+
+def driver_symbolic(ctx):
     repo = ctx.repo
     fi = ctx.fn(repo.func('convolve.monochromatic', 'convolve_model_dir_monochromatic'))
     mod = fi.module
@@ -221,6 +244,10 @@ def run(ctx):
     ctx.expect(len(seq) >= 2 and seq[0][0] == 'sort_to_match' and seq[0][1] in ["%s['MODEL_NAME']" % p_ for p_ in ptab] and seq[1][0] == 'write', 'CFG-5', 'sort_to_match before write', loc(fi, wl[0].lineno),
                'rows put in parameter-table order before each file is written', 'sequence %s' % seq, 'sort-before-write')
 
+
+
+def cube_rules(ctx):
+    repo = ctx.repo
     # ---- cube packages
     fsc = ctx.fn(repo.func('convolved_fluxes.convolved_fluxes', 'MonochromaticFluxes.from_sed_cube'))
     cube = Obj(repo.cls('sed.cube', 'SEDCube'), {'_names': symarr('cnames', ('m',)), '_wav': symarr('cubewav', (N,), unit=unit_atom('micron')), '_nu': None,
